@@ -101,6 +101,9 @@ type tzOut struct {
 }
 
 func loadLocation(name string) (*time.Location, error) {
+	if strings.HasPrefix(name, "synth|") {
+		return synthLocation(name)
+	}
 	return time.LoadLocation(name) // system zoneinfo first, the embedded time/tzdata as fallback
 }
 
@@ -666,6 +669,11 @@ func main() {
 		}
 	}
 	r.Set("zone_change_pairs", len(zones)-nPlain)
+	// synthetic zones (hand-made TZif data): as the process zone from the start, and set after first use in UTC
+	for _, z := range synthZones {
+		zones = append(zones, z, "UTC>"+z)
+	}
+	r.Set("synthetic_zones", len(synthZones))
 
 	// one child process per zone, 16 at a time; the TZ validation child of a quick zone runs in
 	// the same slot right after its zone worker
@@ -801,7 +809,7 @@ func main() {
 	hy, hm, hd := fromOrdinal(hi)
 	r.Count(total.Evals)
 	r.Distinct(distinct)
-	r.Rule(fmt.Sprintf("zones: %d (one child process each, time.Local = the loaded location), plus zone changes inside one process (every entry point first used in zone A, then time.Local set to zone B and B's enumeration for 1990..2040: every ordered pair of 6 first x 8 (thorough 15) second zones); per zone: (a) ToDate on every day %s..%s; (b) every day whose 00:00 is missing or whose offset changes within the day (found by a time.Date scan) +-2 and the 1st/15th/last of every month: ToDate, ParseDate, Date wire decode (direct, codec value field, codec pointer field), Date JSON decode, and for years %d..%d the two-digit SystemDate decode and the SystemDate+SystemTime recombination through GetStatus and Listen at %d times of day (with a four-digit event timestamp alongside), also through a client whose controller is configured with a zone of its own (America/Santiago, or Europe/London when that is the process zone) incl. every 10th civil minute within 2.5 h of that zone's offset changes 2023..2025; (c) DateTime wire decode around every flagged day f: up to year %d every whole minute of f-1, f, f+1 plus second 59 of every minute of f; up to year %d every whole minute of f; later every half hour of f; and every hour of every day of 2024. distinct_nontrivial = judged (function, civil input) cases summed over zones with pairwise different midnight-offset histories over the range (aliases counted once); evaluations counts every library call incl. exempt ones",
+	r.Rule(fmt.Sprintf("zones: %d (one child process each, time.Local = the loaded location), plus zone changes inside one process (every entry point first used in zone A, then time.Local set to zone B and B's enumeration for 1990..2040: every ordered pair of 6 first x 8 (thorough 15) second zones), plus 11 synthetic zones built from hand-made TZif data (jumps of 3..23 h at local midnight, west and east of Greenwich, forwards and backwards); per zone: (a) ToDate on every day %s..%s; (b) every day whose 00:00 is missing or whose offset changes within the day (found by a time.Date scan) +-2 and the 1st/15th/last of every month: ToDate, ParseDate, Date wire decode (direct, codec value field, codec pointer field), Date JSON decode, and for years %d..%d the two-digit SystemDate decode and the SystemDate+SystemTime recombination through GetStatus and Listen at %d times of day (with a four-digit event timestamp alongside), also through a client whose controller is configured with a zone of its own (America/Santiago, or Europe/London when that is the process zone) incl. every 10th civil minute within 2.5 h of that zone's offset changes 2023..2025; (c) DateTime wire decode around every flagged day f: up to year %d every whole minute of f-1, f, f+1 plus second 59 of every minute of f; up to year %d every whole minute of f; later every half hour of f; and every hour of every day of 2024. distinct_nontrivial = judged (function, civil input) cases summed over zones with pairwise different midnight-offset histories over the range (aliases counted once); evaluations counts every library call incl. exempt ones",
 		nPlain, refDateText(ly, lm, ld), refDateText(hy, hm, hd), sysYearLo, sysYearHi, len(statusTimes), minuteYearFull, minuteYearMax))
 	r.Set("zones", nPlain)
 	r.Set("zones_distinct_histories", len(seen))
